@@ -134,7 +134,58 @@ def case_pipeline(case):
     return r.done(outcome=case["pipe"] + str(d))
 
 
-GROUPS = {"matrix": case_matrix, "model": case_model, "pipeline": case_pipeline}
+def case_history(case):
+    """the transform belongs to the present anis / angles: a model used with one setting and then
+    changed in place equals the model constructed with the new setting"""
+    r = R()
+    d = case["dim"]
+    a0, a1 = case["from"], case["to"]
+    extra = {"dim": d, "order": case["order"]}
+    m = _model({"dim": d, "angles": a0["angles"], "anis": a0["anis"], "cls": case["cls"]})
+    rng = np.random.RandomState(5)
+    pos = np.concatenate([np.eye(d), rng.uniform(-3, 3, size=(d, 4))], axis=1)
+    x = rng.uniform(0, 6, size=(d, 5))
+    # warm: everything that could be cached for the old setting
+    m.isometrize(pos), m.anisometrize(pos), m.main_axes(), m.cov_spatial(pos)
+    srf = gs.SRF(m, seed=13, mode_no=16)
+    srf(x)
+    kr_ = gs.krige.Simple(m, x[:, :3], [0.3, 1.1, -0.4], mean=0.2)
+    kr_(x)
+    if case["order"] == "angles_first":
+        m.angles = a1["angles"]
+        m.anis = a1["anis"]
+    elif case["order"] == "anis_first":
+        m.anis = a1["anis"]
+        m.angles = a1["angles"]
+    elif case["order"] == "len_list":
+        m.angles = a1["angles"]
+        m.len_scale = [2.0] + [2.0 * a for a in og.fill_anis(d, a1["anis"])]
+    else:  # set_len_anis style assignment through len_scale scalar + anis afterwards, then angles twice
+        m.angles = a0["angles"]
+        m.len_scale = 2.0
+        m.anis = a1["anis"]
+        m.angles = a1["angles"]
+    ang, anis = a1["angles"], a1["anis"]
+    fresh = _model({"dim": d, "angles": ang, "anis": anis, "cls": case["cls"]})
+    r.true("changed model == model constructed with the new setting", m == fresh, **extra)
+    iso = og.isometrize(d, ang, anis, pos)
+    r.close("after in-place change: isometrize == oracle transform of the new setting", m.isometrize(pos), iso, rtol=1e-12, atol=1e-12, **extra)
+    r.close("after in-place change: anisometrize == oracle transform of the new setting", m.anisometrize(pos), og.anisometrize(d, ang, anis, pos), rtol=1e-12, atol=1e-12, **extra)
+    r.close("after in-place change: main_axes rows == columns of the new rotation", m.main_axes(), og.rotation(d, ang).T, rtol=0, atol=1e-13, **extra)
+    r.close("after in-place change: cov_spatial(x) == covariance(|oracle transform x|)", m.cov_spatial(pos), m.covariance(np.linalg.norm(iso, axis=0)), rtol=1e-11, atol=1e-13, **extra)
+    mI = _model({"dim": d, "cls": case["cls"]}, iso=True)
+    Tx = og.isometrize(d, ang, anis, x)
+    srf.model = m  # documented way to make the generator follow the model
+    r.close("after in-place change + model re-assignment: SRF(x) == SRF(isotropic model)(T x)", srf(x, seed=13), gs.SRF(mI, seed=13, mode_no=16)(Tx), rtol=1e-10, atol=1e-11, **extra)
+    kr_.set_condition()  # documented refresh
+    fb, vb = gs.krige.Simple(mI, og.isometrize(d, ang, anis, x[:, :3]), [0.3, 1.1, -0.4], mean=0.2)(Tx)
+    fa, va = kr_(x)
+    r.close("after in-place change + refresh: kriging at x == isotropic model at T x (field)", fa, fb, rtol=1e-8, atol=1e-9, **extra)
+    r.close("after in-place change + refresh: kriging at x == isotropic model at T x (variance)", va, vb, rtol=1e-8, atol=1e-9, **extra)
+    return r.done(outcome=[round(float(v), 9) for v in iso.ravel()[:4]])
+
+
+GROUPS = {"matrix": case_matrix, "model": case_model, "pipeline": case_pipeline, "history": case_history}
 
 
 def angle_sets(dim, seed, tier):
@@ -190,4 +241,20 @@ def run(chk):
     chk.run("matrix", case_matrix, mcases, rule="dim 1-4 x all angle tuples from {0, +-pi/2, pi, pi/6, 1, 2.5, generic}^m (m=1,3; dim 4: all tuples with <= 3 non-zero of 6 angles) x anisotropy from {1, .5, .1, 3}^(d-1): rotation / stretching matrices against the documented Givens recipe", chunk=200)
     chk.run("model", case_model, modcases, rule="CovModel.isometrize / anisometrize / main_axes / len_scale_vec / cov_spatial along rotated main axes, len_scale list forms", chunk=50)
     chk.run("pipeline", case_pipeline, pcases, rule="SRF (unstructured, structured), Fourier SRF, Simple / Ordinary kriging, CondSRF: anisotropic rotated model at x vs isotropic model at the oracle-transformed positions (same seed)")
+    hcases = []
+    for d in (2, 3, 4):
+        n = og.n_angles(d)
+        settings = [
+            {"angles": [0.0] * n, "anis": [1.0] * (d - 1)},
+            {"angles": [0.6, -0.4, 1.1, 0.3, -0.9, 0.5][:n], "anis": [0.5, 3.0, 0.1][: d - 1]},
+            {"angles": [math.pi / 2, 0.0, 1.0, 0.0, 0.0, -0.7][:n], "anis": [1.0] * (d - 1)},
+            {"angles": [0.0] * n, "anis": [3.0, 0.5, 2.0][: d - 1]},
+        ]
+        for a0, a1 in itertools.permutations(settings, 2):
+            for order in ("angles_first", "anis_first", "len_list", "mixed"):
+                for cls in (["Exponential"] if tier == "quick" else ["Exponential", "Gaussian", "Spherical"]):
+                    if cls == "Spherical" and d == 4:
+                        continue
+                    hcases.append({"dim": d, "from": a0, "to": a1, "order": order, "cls": cls})
+    chk.run("history", case_history, hcases, rule="dim 2-4 x every ordered pair of settings from {isotropic, generic anisotropic+rotated, rotated only, anisotropic only} x order of the in-place assignments {angles then anis, anis then angles, angles + len_scale list, mixed}: the model is used (transforms, SRF, kriging) under the first setting and changed in place; transforms, covariance, SRF (after model re-assignment) and kriging (after set_condition) follow the new setting", chunk=8)
     chk.assume("angles and ratios are finite alphabets (all multiples of pi/2 up to pi, three generic values, seed-selected generic values); universal kriging is excluded from the pipeline equivalence because its drift functions are evaluated in field coordinates by design")
